@@ -1,7 +1,103 @@
-/- placeholder driver for C04: replaced when the model is built -/
-import AcnModel.Wire
-open Lean Acn.Wire
+/-
+  Driver for C04: a pilot matrix and a sequence of operations on it; the matrix (or the error)
+  after each, plus the value of the SPEC `pilotAt` for every cell (so that the harness can compare
+  the implementation with the executable model AND with the executable specification).
 
-def handle (_ : Json) : Except String Json := throw "driver for C04 not built yet"
+  request : {"stations":[str], "width":n,
+             "ops":[ {"op":"submit","t":n,"lastTs":n|null,"sched":[[station,[bits…]],…]}
+                   | {"op":"grow","t":n,"lastTs":n|null}
+                   | {"op":"period","t":n,"lastTs":n|null,"sched":null|[[station,[bits…]],…]} ]}
+  optional "brief":true (only the last step in full); or {"batch":[request,…]} ↦ {"batch":[answer,…]}
+  answer  : {"steps":[{"err":null|"KeyError"|"InvalidSchedule"|"IndexError","width":n,
+                       "rows":[[bits…]], "col":null|[bits…], "spec":[[bits…]]}]}
+-/
+import AcnModel.Wire
+import AcnModel.Pilots
+open Lean Acn Acn.Wire Acn.Pilots
+
+instance : OfNat Float 0 := ⟨0.0⟩
+
+def errName : Err → String
+  | .keyError => "KeyError"
+  | .invalidSchedule => "InvalidSchedule"
+
+def parseSched (v : Json) : Except String (Sched Float) := do
+  let a ← asArr v
+  a.mapM fun e => do
+    let pr ← asArr e
+    match pr with
+    | [k, r] => pure ((← k.getStr?), (← asFs r))
+    | _ => throw "schedule entry must be [station, row]"
+
+def getLastTs (o : Json) : Except String (Option Nat) := getOpt o "lastTs" (fun v => v.getNat?)
+
+structure St where
+  m : Mat Float
+  subs : List (Submission Float)   -- every submission made so far, in order
+
+def jStep (stations : List String) (s : St) (err : Option String) (col : Option (List Float)) : Json :=
+  let spec := stations.map fun st => (List.range s.m.width).map fun τ => pilotAt stations s.subs st τ
+  Json.mkObj [("err", jOpt jS err), ("width", jN s.m.width), ("rows", jFss s.m.rows),
+              ("col", jOpt jFs col), ("spec", jFss spec)]
+
+def stepOp (stations : List String) (s : St) (o : Json) : Except String (St × Json) := do
+  let op ← getStr o "op"
+  let t ← getNat o "t"
+  let lastTs ← getLastTs o
+  if op == "submit" then
+    let sched ← parseSched (← o.getObjVal? "sched")
+    match updateSchedules stations s.m t lastTs sched with
+    | .ok m' =>
+      let s' : St := ⟨m', s.subs ++ [⟨t, lastTs, sched⟩]⟩
+      pure (s', jStep stations s' none none)
+    | .error e =>
+      -- the rejected submission is recorded too: the spec must ignore it
+      let s' : St := ⟨s.m, s.subs ++ [⟨t, lastTs, sched⟩]⟩
+      pure (s', jStep stations s' (some (errName e)) none)
+  else if op == "grow" then
+    let s' : St := ⟨runGrow s.m t lastTs, s.subs⟩
+    pure (s', jStep stations s' none none)
+  else if op == "period" then
+    let sched ← getOpt o "sched" parseSched
+    let subs' := match sched with
+      | some sc => s.subs ++ [⟨t, lastTs, sc⟩]
+      | none => s.subs
+    match periodStep stations s.m ⟨t, lastTs, sched⟩ with
+    | .ok (m', col) =>
+      let s' : St := ⟨m', subs'⟩
+      pure (s', jStep stations s' none (some col))
+    | .error (.sched e) =>
+      let s' : St := ⟨s.m, subs'⟩
+      pure (s', jStep stations s' (some (errName e)) none)
+    | .error .indexError =>
+      pure (s, jStep stations s (some "IndexError") none)
+  else throw s!"unknown op {op}"
+
+def handleOne (j : Json) : Except String Json := do
+  let stations ← (← getArr j "stations").mapM (fun v => v.getStr?)
+  let w ← getNat j "width"
+  let ops ← getArr j "ops"
+  let brief := (getBool j "brief").toOption.getD false
+  let mut s : St := ⟨Mat.zeros stations.length w, []⟩
+  let mut outs : Array Json := #[]
+  let mut k := 0
+  for o in ops do
+    let (s', r) ← stepOp stations s o
+    s := s'
+    k := k + 1
+    -- brief: only the error of the intermediate steps, everything of the last one
+    if brief && k < ops.length then
+      outs := outs.push (Json.mkObj [("err", (r.getObjVal? "err").toOption.getD Json.null)])
+    else
+      outs := outs.push r
+  pure (Json.mkObj [("steps", Json.arr outs)])
+
+/-- a request is one scenario, or `{"batch":[scenario,…]}` (exhaustive small-scope enumeration) -/
+def handle (j : Json) : Except String Json := do
+  match j.getObjVal? "batch" with
+  | .ok b =>
+    let rs ← (← asArr b).mapM handleOne
+    pure (Json.mkObj [("batch", Json.arr rs.toArray)])
+  | .error _ => handleOne j
 
 def main : IO Unit := runDriver handle
